@@ -134,7 +134,7 @@ package go9p
 
 //@ func NewFcall(sz) (fc)
 //@   property C01
-//@   ensures  fc != nil && fresh(fc) && len(fc.Buf) == sz && fresh(fc.Buf)
+//@   ensures  fc != nil && fresh(fc) && len(fc.Buf) == sz && fresh(fc.Buf) && fc.Type == 0
 //@   assigns  fresh
 
 //@ func SetTag(fc, tag)
@@ -1640,6 +1640,10 @@ package go9p
 //@   at call((*SrvReq).process) requires [C08 synconly] arg0.Tc.Type == 100
 //@   at call((*SrvReq).process) requires [size] 7 <= arg0.Tc.Size && arg0.Tc.Size <= conn.Msize && len(arg0.Rc.Buf) == conn.Msize
 //@   at go((*SrvReq).process) requires [size] 7 <= arg0.Tc.Size && arg0.Tc.Size <= conn.Msize && len(arg0.Rc.Buf) == conn.Msize
+// a recycled reply buffer must not look like the reply of the new request (a request cancelled before it ran is
+// cleaned up by the post-handlers, which look at the reply type)
+//@   at call((*SrvReq).process) requires [C07 C06 C04 cleanreply] arg0.Rc.Type == 0
+//@   at go((*SrvReq).process) requires [C07 C06 C04 cleanreply] arg0.Rc.Type == 0
 //@   ghost dobj int = 0
 //@   ghost dend int = 0
 //@   at call(Unpack) after dobj := obj(arg0)
@@ -1713,22 +1717,23 @@ package go9p
 
 //@ func (*Srv).authPost(srv, req)
 //@   property C04 C06
-//@   requires req != nil && (req.Rc != nil && req.Rc.Type == 103 ==> req.Afid != nil && !held(req.Afid))
-//@   ensures  req.Rc != nil && req.Rc.Type == 103 ==> req.Afid.refcount == wrap64s(old(req.Afid.refcount) + 1)
+// (a request flushed before it started has no fids and a reply buffer with stale content: no precondition on them)
+//@   requires req != nil && (req.Afid != nil ==> !held(req.Afid))
+//@   ensures  req.Rc != nil && req.Rc.Type == 103 && req.Afid != nil ==> req.Afid.refcount == wrap64s(old(req.Afid.refcount) + 1)
 //@   ensures  !(req.Rc != nil && req.Rc.Type == 103) && req.Afid != nil ==> req.Afid.refcount == old(req.Afid.refcount)
 //@   assigns  req.Afid.refcount
 
 //@ func (*Srv).attachPost(srv, req)
 //@   property C04 C06
-//@   requires req != nil && (req.Rc != nil && req.Rc.Type == 105 ==> req.Fid != nil && !held(req.Fid))
-//@   ensures  req.Rc != nil && req.Rc.Type == 105 ==> req.Fid.refcount == wrap64s(old(req.Fid.refcount) + 1) && req.Fid.Type == req.Rc.Qid.Type
+//@   requires req != nil && (req.Fid != nil ==> !held(req.Fid))
+//@   ensures  req.Rc != nil && req.Rc.Type == 105 && req.Fid != nil ==> req.Fid.refcount == wrap64s(old(req.Fid.refcount) + 1) && req.Fid.Type == req.Rc.Qid.Type
 //@   ensures  !(req.Rc != nil && req.Rc.Type == 105) && req.Fid != nil ==> req.Fid.refcount == old(req.Fid.refcount) && req.Fid.Type == old(req.Fid.Type)
 //@   assigns  req.Fid.refcount, req.Fid.Type
 
-//@ pure walkdone(req) = req.Rc != nil && req.Rc.Type == 111 && req.Newfid != nil && len(req.Rc.Wqid) == len(req.Tc.Wname)
+//@ pure walkdone(req) = req.Rc != nil && req.Rc.Type == 111 && req.Newfid != nil && req.Fid != nil && len(req.Rc.Wqid) == len(req.Tc.Wname)
 //@ func (*Srv).walkPost(srv, req)
 //@   property C04 C06 C16
-//@   requires req != nil && req.Tc != nil && (req.Rc != nil && req.Rc.Type == 111 && req.Newfid != nil ==> req.Fid != nil && !held(req.Newfid))
+//@   requires req != nil && req.Tc != nil && (req.Newfid != nil ==> !held(req.Newfid))
 //@   ensures  [retain] walkdone(req) && req.Newfid.fid != req.Fid.fid ==> req.Newfid.refcount == wrap64s(old(req.Newfid.refcount) + 1)
 //@   ensures  [noretain] !(walkdone(req) && req.Newfid.fid != req.Fid.fid) && req.Newfid != nil ==> req.Newfid.refcount == old(req.Newfid.refcount)
 //@   ensures  [partial] !walkdone(req) && req.Newfid != nil ==> req.Newfid.Type == old(req.Newfid.Type)
@@ -1753,8 +1758,8 @@ package go9p
 
 //@ func (*Srv).readPost(srv, req)
 //@   property C04 C15 C06
-//@   requires req != nil && (req.Rc != nil && req.Rc.Type == 117 ==> req.Fid != nil)
-//@   ensures  req.Rc != nil && req.Rc.Type == 117 && req.Fid.Type & 128 != 0 ==> req.Fid.Diroffset == wrap64(old(req.Fid.Diroffset) + req.Rc.Count)
+//@   requires req != nil
+//@   ensures  req.Rc != nil && req.Rc.Type == 117 && req.Fid != nil && req.Fid.Type & 128 != 0 ==> req.Fid.Diroffset == wrap64(old(req.Fid.Diroffset) + req.Rc.Count)
 //@   assigns  req.Fid.Diroffset
 
 //@ func (*Srv).clunkPost(srv, req)
@@ -1779,10 +1784,6 @@ package go9p
 //@   property C04 C06 C03
 //@   requires req != nil && req.Tc != nil && req.Conn != nil && req.Conn.Srv != nil && nolocks()
 //@   at call((*SrvFid).DecRef) assume arg0 != nil ==> arg0.Fconn != nil && arg0.Fconn.Srv != nil && arg0.refcount > -9223372036854775807
-//@   at call((*Srv).authPost) assume req.Rc != nil && req.Rc.Type == 103 ==> req.Afid != nil
-//@   at call((*Srv).attachPost) assume req.Rc != nil && req.Rc.Type == 105 ==> req.Fid != nil
-//@   at call((*Srv).walkPost) assume req.Rc != nil && req.Rc.Type == 111 && req.Newfid != nil ==> req.Fid != nil
-//@   at call((*Srv).readPost) assume req.Rc != nil && req.Rc.Type == 117 ==> req.Fid != nil
 //@   at call((*Srv).clunkPost) assume req.Fid != nil ==> req.Fid.Fconn != nil && req.Fid.Fconn.Srv != nil && req.Fid.refcount > -9223372036854775807
 //@   at call((*Srv).removePost) assume req.Fid != nil ==> req.Fid.Fconn != nil && req.Fid.Fconn.Srv != nil && req.Fid.refcount > -9223372036854775807
 
